@@ -154,7 +154,12 @@ def rdivop(sx, a, lit_, op):
     """lit op a: literal converted to the vector operand's width"""
     k = kind_of(a)
     wa = width(a)
-    sx.domain(representable(k, wa, lit_))
+    if k is Unsigned:
+        # numeric_std "/", "mod", "rem" (L: NATURAL; R: UNSIGNED) compute with the UNTRUNCATED natural (operands extended to
+        # max(bits of L, R'length)) and resize the result to R'length: 20 mod unsigned'("0110") = 2, not (20 mod 16) mod 6
+        sx.domain(lit_ >= 0)
+    else:
+        sx.domain(representable(k, wa, lit_))
     return _div_like(sx, k, wa, lit_, ival(a), op)
 
 
